@@ -69,7 +69,7 @@ pub fn panic_sig(msg: &str) -> String {
     let file = file.rsplit("/src/").next().unwrap_or(file);
     let mut out = String::new();
     let mut last_digit = false;
-    for ch in head.chars().take(60) {
+    for ch in head.chars() {
         if ch.is_ascii_digit() {
             if !last_digit {
                 out.push('#');
@@ -78,6 +78,9 @@ pub fn panic_sig(msg: &str) -> String {
         } else {
             last_digit = false;
             out.push(if ch == '|' || ch == '\n' { ' ' } else { ch });
+        }
+        if out.len() >= 60 {
+            break;
         }
     }
     format!("panic:{}@{}", out.trim(), file)
